@@ -203,6 +203,11 @@ func verifNoAllocSince(id string) {
 		verifFailures = append(verifFailures, id)
 	}
 }
+// native runs verify checksums directly; the engine models Checksum as an uninterpreted function (C15 decides it)
+func verifIsNative() bool             { return true }
+func verifChecksumCalls() int         { return 0 }
+func verifChecksumArg(i int) []byte   { return nil }
+func verifChecksumResult(i int) uint16 { return 0 }
 func verifRunGoroutines()                {}
 func verifPendingGoroutines() int        { return 0 }
 func verifDropGoroutines()               {}
